@@ -99,6 +99,9 @@ func (s *zz17Stream) Write(p []byte) (int, error) {
 
 // zz17Respond plays the remote peer: decode the request, produce the handler's answer (payload =
 // request payload + 1) and deliver it to the local onResponse.
+// zz17BigResponse: when set, the remote handler answers with this payload (zz_verif_c17_large.go).
+var zz17BigResponse []byte
+
 func zz17Respond(mp *MessageProtocol, raw []byte, from peer.ID) {
 	req := &Request{}
 	if err := req.Decode(raw); err != nil {
@@ -107,6 +110,9 @@ func zz17Respond(mp *MessageProtocol, raw []byte, from peer.ID) {
 	data := append([]byte{}, req.Data...)
 	for i := range data {
 		data[i]++
+	}
+	if zz17BigResponse != nil {
+		data = zz17BigResponse
 	}
 	res := newResponseMessage(req.ID, req.Procedure, data, nil)
 	bare, _ := zzAddrs(0)
